@@ -40,6 +40,9 @@ func RandStringRunes(n int64, s string) string {
 		s = letters
 	}
 	var letterRunes = []rune(s)
+	if n < 0 {
+		n = 0
+	}
 	b := make([]rune, n)
 	for i := range b {
 		b[i] = letterRunes[randSource.Intn(len(letterRunes))]
